@@ -1,6 +1,7 @@
 import Huginn.Lemmas.Reach
 import Huginn.Props.C02
 import Huginn.Props.C12
+import Huginn.Lemmas.BundledTextHttp
 /-
 C13 — Every bundled signature is reachable by the traffic it describes.
 Property theorems only; lemmas in `Huginn/Lemmas/Reach.lean` (and those of C02, C03, C12).
@@ -433,5 +434,22 @@ theorem reach_http_response (own : Nat × Nat × HttpSig) (hown : own ∈ entrie
       (httpAnalyze bundledHttpRequest bundledHttpResponse false (httpObsOf false v hs sw)) ∧
     httpScore 0 = 100 :=
   ⟨reach_http_general _ own hown false v hs sw hr hc hab hsw, by decide⟩
+
+/-! ## 5. The tables the theorems are about are the bundled file, as the Rust parser reads it -/
+
+/-- Every TCP signature value of `Gen/BundledSig.lean` is what C06's model of `parse_tcp_signature`
+returns on the corresponding `sig =` text of the bundled p0f.fp (`Gen/BundledChars.lean`), in file
+order (`[tcp:request]` then `[tcp:response]`). -/
+theorem bundled_tcp_values_are_parsed_text :
+    Gen.BundledChars.tcpSigs.map Huginn.SigText.parseTcpSigFull =
+      (Huginn.Reach.Text.flat Gen.BundledSig.tcpRequest ++ Huginn.Reach.Text.flat Gen.BundledSig.tcpResponse).map some :=
+  Huginn.Reach.Text.tcp_values_are_parsed_text
+
+/-- … and every HTTP signature value, against C06's model of `parse_http_signature`. -/
+theorem bundled_http_values_are_parsed_text :
+    Gen.BundledChars.httpSigs.map Huginn.SigText.parseHttpSigFullL =
+      (Huginn.Reach.Text.flat Gen.BundledSig.httpRequest ++ Huginn.Reach.Text.flat Gen.BundledSig.httpResponse).map
+        (fun s => some (Huginn.SigText.HttpSigL.ofSig s)) :=
+  Huginn.Reach.Text.http_values_are_parsed_text
 
 end Huginn.Props.C13
